@@ -14,8 +14,11 @@ import (
 	"sync"
 	"time"
 
+	"google.golang.org/protobuf/types/known/timestamppb"
 	"reduction.dev/reduction-protocol/handlerpb"
+	"reduction.dev/reduction/batching"
 	"reduction.dev/reduction/config"
+	"reduction.dev/reduction/connectors"
 	"reduction.dev/reduction/connectors/embedded"
 	"reduction.dev/reduction/dkv"
 	"reduction.dev/reduction/dkv/kv"
@@ -29,6 +32,8 @@ import (
 	"reduction.dev/reduction/proto/jobpb"
 	"reduction.dev/reduction/proto/snapshotpb"
 	"reduction.dev/reduction/proto/workerpb"
+	"reduction.dev/reduction/storage/locations"
+	"reduction.dev/reduction/storage/snapshots"
 	"reduction.dev/reduction/workers/operator"
 	"verif/harness/lib"
 )
@@ -64,11 +69,10 @@ func (in *c06Inst) stateStore(kgc int) *operator.KeyedStateStore {
 	return in.states[kgc]
 }
 
+// a fresh TimerStore per use: its cache is loaded from the database once, and in cluster mode the operator's own timer
+// registry writes timers too
 func (in *c06Inst) timerStore(kgc int) *operator.TimerStore {
-	if in.timers[kgc] == nil {
-		in.timers[kgc] = operator.NewTimerStore(in.db, partitioning.NewKeySpace(kgc, 1), in.rg, 1<<30)
-	}
-	return in.timers[kgc]
+	return operator.NewTimerStore(in.db, partitioning.NewKeySpace(kgc, 1), in.rg, 1<<30)
 }
 
 // routed reports whether the router would deliver the subject key to this operator (its key group is in its range)
@@ -91,19 +95,100 @@ type c06World struct {
 	acks    map[string]*snapshotpb.OperatorCheckpoint
 	job     *c06Job
 	cancels []context.CancelFunc
+	store   *snapshots.Store // the job's real snapshot store: assembles the JobCheckpoint from the operators' acks
+	gen     []int            // instance ids of the operators deployed last
+	begun   map[uint64]bool  // checkpoints created in the store
+	hand    *c06Handler
+}
+
+// c06Splitter: the store asks the source splitter for its checkpoint when a snapshot completes
+type c06Splitter struct {
+	connectors.UnimplementedSourceSplitter
+}
+
+func (*c06Splitter) Checkpoint() []byte { return nil }
+
+// c06FakeSR is the one source runner of the assembly (the operators only accept events from deployed runner ids)
+type c06FakeSR struct {
+	proto.UnimplementedSourceRunner
+}
+
+func (*c06FakeSR) ID() string   { return "sr0" }
+func (*c06FakeSR) Host() string { return "h" }
+func (*c06FakeSR) Deploy(context.Context, *workerpb.DeploySourceRunnerRequest) error {
+	return nil
+}
+
+// c06Handler is the user handler of every real operator: it records the key state it is handed (what the operator's own
+// KeyedStateStore.GetState returned) and the timers that fire, and answers with the mutation / timer the event carries
+// (`p:ns:data:val`, `d:ns:data`, `t:nanos`, hex fields).
+type c06Handler struct {
+	mu    sync.Mutex
+	given []string
+	fired []string
+}
+
+func (h *c06Handler) KeyEventBatch(ctx context.Context, events [][]byte) ([][]*handlerpb.KeyedEvent, error) {
+	panic("unused by operators")
+}
+
+func (h *c06Handler) ProcessEventBatch(ctx context.Context, req *handlerpb.ProcessEventBatchRequest) (*handlerpb.ProcessEventBatchResponse, error) {
+	h.mu.Lock()
+	defer h.mu.Unlock()
+	for _, ks := range req.KeyStates {
+		var parts []string
+		for _, ns := range ks.StateEntryNamespaces {
+			for _, e := range ns.Entries {
+				parts = append(parts, lib.Hex([]byte(ns.Namespace))+"/"+lib.Hex(e.Key)+"="+lib.Hex(e.Value))
+			}
+		}
+		if len(parts) == 0 {
+			h.given = append(h.given, "empty")
+		} else {
+			h.given = append(h.given, strings.Join(parts, ","))
+		}
+	}
+	resp := &handlerpb.ProcessEventBatchResponse{}
+	for _, ev := range req.Events {
+		switch e := ev.Event.(type) {
+		case *handlerpb.Event_TimerExpired:
+			h.fired = append(h.fired, fmt.Sprintf("%d %s", uint64(e.TimerExpired.Timestamp.AsTime().UnixNano()), lib.Hex(e.TimerExpired.Key)))
+		case *handlerpb.Event_KeyedEvent:
+			f := strings.Split(string(e.KeyedEvent.Value), ":")
+			kr := &handlerpb.KeyResult{Key: e.KeyedEvent.Key}
+			switch f[0] {
+			case "p":
+				kr.StateMutationNamespaces = []*handlerpb.StateMutationNamespace{{Namespace: string(lib.UnHex(f[1])), Mutations: []*handlerpb.StateMutation{
+					{Mutation: &handlerpb.StateMutation_Put{Put: &handlerpb.PutMutation{Key: lib.UnHex(f[2]), Value: lib.UnHex(f[3])}}}}}}
+			case "d":
+				kr.StateMutationNamespaces = []*handlerpb.StateMutationNamespace{{Namespace: string(lib.UnHex(f[1])), Mutations: []*handlerpb.StateMutation{
+					{Mutation: &handlerpb.StateMutation_Delete{Delete: &handlerpb.DeleteMutation{Key: lib.UnHex(f[2])}}}}}}
+			case "t":
+				n, _ := strconv.ParseUint(f[1], 10, 64)
+				kr.NewTimers = []*timestamppb.Timestamp{timestamppb.New(time.Unix(0, int64(n)))}
+			}
+			resp.KeyResults = append(resp.KeyResults, kr)
+		}
+	}
+	return resp, nil
 }
 
 // c06Job records the operator checkpoints the real operators report (proto.Job)
 type c06Job struct {
 	proto.NoopJob
-	mu   sync.Mutex
-	acks map[string]*snapshotpb.OperatorCheckpoint
+	mu    sync.Mutex
+	acks  map[string]*snapshotpb.OperatorCheckpoint
+	store *snapshots.Store
 }
 
 func (j *c06Job) OperatorCheckpointComplete(ctx context.Context, req *snapshotpb.OperatorCheckpoint) error {
 	j.mu.Lock()
-	defer j.mu.Unlock()
 	j.acks[req.OperatorId] = req
+	store := j.store
+	j.mu.Unlock()
+	if store != nil { // what jobs.Job.HandleOperatorCheckpoint does with the acknowledgement
+		return store.AddOperatorSnapshot(req)
+	}
 	return nil
 }
 
@@ -147,14 +232,21 @@ func (w *c06World) cluster() error {
 	w.ops = map[int]*operator.Operator{}
 	w.names = map[int]string{}
 	w.acks = map[string]*snapshotpb.OperatorCheckpoint{}
-	w.job = &c06Job{acks: map[string]*snapshotpb.OperatorCheckpoint{}}
+	w.store = snapshots.NewStore(&snapshots.NewStoreParams{
+		FileStore: locations.NewLocalDirectory(tmp + "/job"), SavepointsPath: "savepoints", CheckpointsPath: "checkpoints",
+	})
+	w.store.RegisterSourceSplitter(&c06Splitter{})
+	w.begun = map[uint64]bool{}
+	w.hand = &c06Handler{}
+	w.job = &c06Job{acks: map[string]*snapshotpb.OperatorCheckpoint{}, store: w.store}
 	return nil
 }
 
 func (w *c06World) newOperator(id int) (*operator.Operator, string) {
 	name := fmt.Sprintf("%s-o%d", w.dir, id)
 	op := operator.NewOperator(operator.NewOperatorParams{
-		ID: name, Job: w.job,
+		ID: name, Job: w.job, UserHandler: w.hand,
+		EventBatching:           batching.EventBatcherParams{MaxSize: 1, MaxDelay: time.Hour},
 		NeighborOperatorFactory: func(string, *jobpb.NodeIdentity) proto.Operator { return &c06Neighbor{} },
 	})
 	ctx, cancel := context.WithCancel(context.Background())
@@ -465,6 +557,21 @@ func c06DocTriples(dump string) (tables, walEntries []string) {
 	return tables, walEntries
 }
 
+// c06Send delivers an event from the deployed source runner through the real Operator.HandleEvent
+func c06Send(op *operator.Operator, ev *workerpb.Event) string {
+	done := make(chan error, 1)
+	go func() { done <- op.HandleEvent(context.Background(), "sr0", ev) }()
+	select {
+	case err := <-done:
+		if err != nil {
+			return "err event " + strings.ReplaceAll(err.Error(), " ", "_")
+		}
+		return ""
+	case <-time.After(10 * time.Second):
+		return "timeout"
+	}
+}
+
 func c06Scan(db *dkv.DB, prefix []byte, keep func([]byte) bool) string {
 	var scanErr error
 	var parts []string
@@ -507,7 +614,7 @@ func runC06(c lib.Case) []string {
 		f := strings.Fields(op)
 		var in *c06Inst
 		switch f[0] {
-		case "put", "del", "settle", "ckpt", "get", "scan", "scanown", "seq", "sput", "sdel", "sget", "tput", "tearliest", "leak", "rot", "cckpt":
+		case "put", "del", "settle", "ckpt", "get", "scan", "scanown", "seq", "sput", "sdel", "sget", "tput", "tearliest", "leak", "rot", "cckpt", "hput", "hdel", "htimer", "hwm":
 			in = w.insts[atoi(f[1])]
 			if in == nil {
 				out = append(out, "no-instance")
@@ -539,6 +646,10 @@ func runC06(c lib.Case) []string {
 				}
 				parts = append(parts, w.adopt(first+j, op, cfg))
 			}
+			w.gen = w.gen[:0]
+			for j := 0; j < m; j++ {
+				w.gen = append(w.gen, first+j)
+			}
 			out = append(out, strings.Join(parts, ";"))
 		case "rot": // seal the active memtable and flush it (what a full memtable does), then let flush/compaction finish
 			if in.dirty {
@@ -558,6 +669,23 @@ func runC06(c lib.Case) []string {
 			}
 			c06Wait(in.db)
 			cid := uint64(atoi(f[2]))
+			if !w.begun[cid] {
+				// the job creates the checkpoint in its snapshot store, naming the operators and runners it expects
+				names := make([]string, len(w.gen))
+				for i, g := range w.gen {
+					names[i] = w.names[g]
+				}
+				got, err := w.store.CreateCheckpoint(names, []string{"sr0"})
+				if err != nil || got != cid {
+					out = append(out, fmt.Sprintf("store-create id=%d err=%v", got, err != nil))
+					continue
+				}
+				if err := w.store.AddSourceSnapshot(&jobpb.SourceRunnerCheckpointCompleteRequest{CheckpointId: cid, SourceRunnerId: "sr0"}); err != nil {
+					out = append(out, "store-source-ack-error")
+					continue
+				}
+				w.begun[cid] = true
+			}
 			done := make(chan error, 1)
 			go func() {
 				done <- op.HandleEvent(context.Background(), "sr0", &workerpb.Event{Event: &workerpb.Event_CheckpointBarrier{CheckpointBarrier: &workerpb.CheckpointBarrier{CheckpointId: cid}}})
@@ -593,21 +721,41 @@ func runC06(c lib.Case) []string {
 				continue
 			}
 			first, kgc, n, cid := atoi(f[1]), atoi(f[2]), atoi(f[3]), f[4]
-			jc := &snapshotpb.JobCheckpoint{Id: uint64(atoi(cid))}
-			pos := map[string]int{}
-			okAcks := true
-			for i, ref := range strings.Split(f[5], ",") {
-				ack := w.acks[ref+":"+cid]
-				if ack == nil {
-					okAcks = false
-					break
+			missing := false
+			for _, ref := range strings.Split(f[5], ",") {
+				if w.acks[ref+":"+cid] == nil {
+					missing = true
 				}
-				jc.OperatorCheckpoints = append(jc.OperatorCheckpoints, ack)
-				pos[ack.DkvFileUri] = i
 			}
-			if !okAcks {
+			if missing {
 				out = append(out, "no-ack")
 				continue
+			}
+			// the job checkpoint as the real snapshot store assembled and published it from the operators' acknowledgements
+			var jc *snapshotpb.JobCheckpoint
+			deadline := time.Now().Add(5 * time.Second)
+			for {
+				jc = w.store.CurrentCheckpoint()
+				if jc.GetId() == uint64(atoi(cid)) || time.Now().After(deadline) {
+					break
+				}
+				time.Sleep(200 * time.Microsecond)
+			}
+			if jc.GetId() != uint64(atoi(cid)) {
+				out = append(out, "store-not-published")
+				continue
+			}
+			pos := map[string]int{}
+			byURI := map[string]string{}
+			for _, ref := range strings.Split(f[5], ",") {
+				if ack := w.acks[ref+":"+cid]; ack != nil {
+					byURI[ack.DkvFileUri] = ref
+				}
+			}
+			var order []string
+			for i, oc := range jc.OperatorCheckpoints {
+				pos[oc.DkvFileUri] = i
+				order = append(order, byURI[oc.DkvFileUri])
 			}
 			mu := &sync.Mutex{}
 			uris := make([][]string, n)
@@ -625,7 +773,7 @@ func runC06(c lib.Case) []string {
 						done <- fmt.Errorf("panic %v", r)
 					}
 				}()
-				done <- jobs.NewAssembly(adapters, nil).Deploy(&config.Config{WorkerCount: n, KeyGroupCount: kgc, WorkingStorageLocation: w.tmp}, jc)
+				done <- jobs.NewAssembly(adapters, []proto.SourceRunner{&c06FakeSR{}}).Deploy(&config.Config{WorkerCount: n, KeyGroupCount: kgc, WorkingStorageLocation: w.tmp}, jc)
 			}()
 			select {
 			case err := <-done:
@@ -651,7 +799,11 @@ func runC06(c lib.Case) []string {
 				out = append(out, bad)
 				continue
 			}
-			out = append(out, c06ShowAssign(a))
+			w.gen = w.gen[:0]
+			for i := 0; i < n; i++ {
+				w.gen = append(w.gen, first+i)
+			}
+			out = append(out, c06ShowAssign(a)+" order="+strings.Join(order, ","))
 		case "assign":
 			out = append(out, c06ShowAssign(partitioning.AssignRanges(c06Ranges(f[1]), c06Ranges(f[2]))))
 		case "assigncheck":
@@ -806,6 +958,63 @@ func runC06(c lib.Case) []string {
 			in.dirty = true
 			c06Wait(in.db)
 			out = append(out, "ok")
+		case "hput", "hdel", "htimer": // a keyed event from the source runner through Operator.HandleEvent to the user handler
+			op := w.ops[atoi(f[1])]
+			if op == nil {
+				out = append(out, "no-operator")
+				continue
+			}
+			kgc, subj := atoi(f[2]), lib.UnHex(f[3])
+			if !in.routed(kgc, subj) {
+				out = append(out, "not-routed")
+				continue
+			}
+			val := ""
+			switch f[0] {
+			case "hput":
+				val = "p:" + f[4] + ":" + f[5] + ":" + f[6]
+			case "hdel":
+				val = "d:" + f[4] + ":" + f[5]
+			default:
+				val = "t:" + f[4]
+			}
+			w.hand.mu.Lock()
+			w.hand.given = nil
+			w.hand.mu.Unlock()
+			res := c06Send(op, &workerpb.Event{Event: &workerpb.Event_KeyedEvent{KeyedEvent: &handlerpb.KeyedEvent{Key: subj, Value: []byte(val), Timestamp: timestamppb.New(time.Unix(0, 1))}}})
+			in.dirty = true
+			c06Wait(in.db)
+			if res != "" {
+				out = append(out, res)
+				continue
+			}
+			w.hand.mu.Lock()
+			out = append(out, strings.Join(w.hand.given, ";"))
+			w.hand.mu.Unlock()
+		case "hwm": // hwm id kgc t: a watermark from the source runner: the operator's timer registry fires the due timers
+			op := w.ops[atoi(f[1])]
+			if op == nil {
+				out = append(out, "no-operator")
+				continue
+			}
+			t, _ := strconv.ParseUint(f[3], 10, 64)
+			w.hand.mu.Lock()
+			w.hand.fired = nil
+			w.hand.mu.Unlock()
+			res := c06Send(op, &workerpb.Event{Event: &workerpb.Event_Watermark{Watermark: &workerpb.Watermark{Timestamp: timestamppb.New(time.Unix(0, int64(t)))}}})
+			in.dirty = true
+			c06Wait(in.db)
+			if res != "" {
+				out = append(out, res)
+				continue
+			}
+			w.hand.mu.Lock()
+			if len(w.hand.fired) == 0 {
+				out = append(out, "none")
+			} else {
+				out = append(out, strings.Join(w.hand.fired, ","))
+			}
+			w.hand.mu.Unlock()
 		case "tearliest": // tearliest id kgc: real TimerStore.GetEarliest over the operator's key groups
 			tm, ok := in.timerStore(atoi(f[2])).GetEarliest()
 			if !ok {
@@ -1124,6 +1333,37 @@ func c06GenCase(r *lib.Rng, p c06Plan) lib.Case {
 	return c
 }
 
+// c06HandlerWrites: keyed events and watermarks for random subject keys, sent from the deployed source runner to every
+// operator of the generation (only the one the subject is routed to processes a keyed event): state mutations and timers
+// go through the user handler into the operator's own KeyedStateStore / TimerRegistry; a watermark fires the due timers.
+func c06HandlerWrites(r *lib.Rng, ops []string, ids []int, kgc, n int, tcount *int, wm *uint64) []string {
+	for i := 0; i < n; i++ {
+		sj := lib.Hex(lib.Pick(r, c06Subjects))
+		var op string
+		switch r.Intn(7) {
+		case 0:
+			op = fmt.Sprintf("hdel %%d %d %s %s %s", kgc, sj, lib.Hex([]byte(lib.Pick(r, []string{"", "a", "ns"}))), lib.Hex(lib.Pick(r, [][]byte{{}, {1}, {2, 3}})))
+		case 1, 2:
+			*tcount++
+			// mostly above the current watermark (a timer on or before it is not stored)
+			t := *wm + uint64(r.Range(1, 4000))<<8 | uint64(*tcount&0xff)
+			if r.Chance(1, 6) && *wm > 1 {
+				t = uint64(r.Intn(int(*wm)))
+			}
+			op = fmt.Sprintf("htimer %%d %d %s %d", kgc, sj, t)
+		case 3:
+			*wm += uint64(r.Range(1, 3000)) << 8
+			op = fmt.Sprintf("hwm %%d %d %d", kgc, *wm)
+		default:
+			op = fmt.Sprintf("hput %%d %d %s %s %s %s", kgc, sj, lib.Hex([]byte(lib.Pick(r, []string{"", "a", "ns"}))), lib.Hex(lib.Pick(r, [][]byte{{}, {1}, {2, 3}})), lib.Hex(r.Bytes(r.Range(0, 4))))
+		}
+		for _, id := range ids {
+			ops = append(ops, fmt.Sprintf(op, id))
+		}
+	}
+	return ops
+}
+
 // c06GenCluster: M real operators (Operator.HandleDeploy) write state, flush at chosen points, checkpoint through a
 // barrier from their source runner; the job checkpoint with the acknowledgements in a permuted order is handed to the real
 // Assembly.Deploy of N new real operators; then the usual observations, writes after the restore, and the content of the
@@ -1137,6 +1377,7 @@ func c06GenCluster(r *lib.Rng) lib.Case {
 	oldIDs := make([]int, m)
 	ops := []string{fmt.Sprintf("cnew 0 %d %d", kgc, m)}
 	tcount := 0
+	wm := uint64(0)
 	for round := 0; round < r.Range(1, 3); round++ {
 		for j, rg := range oldR {
 			oldIDs[j] = j
@@ -1145,7 +1386,7 @@ func c06GenCluster(r *lib.Rng) lib.Case {
 				ops = append(ops, fmt.Sprintf("rot %d", j))
 			}
 		}
-		ops = c06StoreWrites(r, ops, oldIDs, kgc, r.Range(1, 5), &tcount)
+		ops = c06HandlerWrites(r, ops, oldIDs, kgc, r.Range(2, 7), &tcount, &wm)
 	}
 	acks := c06RandPerm(r, m)
 	for _, j := range acks {
@@ -1174,7 +1415,8 @@ func c06GenCluster(r *lib.Rng) lib.Case {
 			ops = append(ops, fmt.Sprintf("leak %d 91 %s", 100+i, strings.Join(hs, ",")))
 		}
 	}
-	ops = c06StoreWrites(r, ops, newIDs, kgc, r.Range(1, 4), &tcount)
+	wm = 0 // a deployment starts the operators' watermark at the epoch again
+	ops = c06HandlerWrites(r, ops, newIDs, kgc, r.Range(2, 8), &tcount, &wm)
 	for i, nr := range newR {
 		ops = c06Writes(r, ops, 100+i, nr, r.Range(1, 5), written)
 		if nr[1] > nr[0] && r.Chance(1, 2) {
@@ -1306,9 +1548,39 @@ func propC06() *lib.Prop {
 				for i, nr := range c06GenRanges(8, n) {
 					cl.Ops = c06Observe(cl.Ops, 100+i, nr, 8, map[string]bool{"000161": true, "000561": true, "000261": true, "000661": true})
 				}
+				for i := 0; i < n; i++ {
+					cl.Ops = append(cl.Ops, fmt.Sprintf("hput %d 8 7330 61 03 ff", 100+i), fmt.Sprintf("htimer %d 8 7330 900", 100+i), fmt.Sprintf("hwm %d 8 800", 100+i))
+				}
+				for i := 0; i < n; i++ {
+					cl.Ops = append(cl.Ops, fmt.Sprintf("hwm %d 8 1000", 100+i), fmt.Sprintf("sget %d 8 7330", 100+i), fmt.Sprintf("tearliest %d 8", 100+i))
+				}
 				cl.Ops = append(cl.Ops, "put 100 000161 a2", "rot 100", "get 100 000161", "scan 100 0001", "seq 100")
 				cs = append(cs, cl)
 			}
+			// open finding D37 on the real code (4 -> 3 -> 1): instance 101 = [86,171) restores old 1's table, which holds a key
+			// of group 0x41 it does not own, and its compaction re-writes it; merged with 100's table the base level overlaps
+			// and Get of 100's key 0047ff lands on 101's table. Tagged D37 by the driver only because the merged level overlaps.
+			cs = append(cs, lib.Case{Header: "M C06 l0=2 amp=50 smallest=1", Tags: []string{"D37-witness"}, Ops: []string{
+				"new 0 0 64 400 1048576", "new 1 64 128 1 1048576", "put 1 00416162 5a", "new 2 128 192 400 1048576", "put 2 009a00 -",
+				"new 3 192 256 1 1048576", "ckpt 0 1", "ckpt 1 1", "ckpt 2 1", "ckpt 3 1",
+				"open 100 0 86 1 1048576 1:1,0:1", "open 101 86 171 1 1048576 2:1,1:1", "open 102 171 256 1 1048576 3:1,2:1",
+				"put 100 0047ff 6222", "ckpt 100 2", "ckpt 101 2", "ckpt 102 2",
+				"open 200 0 256 1048576 1048576 102:2,100:2,101:2",
+				"get 200 0047ff", "get 200 00416162", "get 200 009a00", "scanown 200", "seq 200",
+			}})
+			// open finding D47 on the real code (1 -> 2 -> 1, split then merge): both 100 and 101 reference old 0's table T
+			// (k = old); 100 overwrites k; merging [100, 101] makes 101's copy of T the newest level-0 table: Get k = old, while
+			// the scan (by sequence number) and the order [101, 100] give new. Tagged D47 on the Get of k only.
+			k47 := lib.Hex(c06Key(0x0a, []byte("k")))
+			cs = append(cs, lib.Case{Header: "M C06 l0=9 amp=50 smallest=268435456", Tags: []string{"D47-witness"}, Ops: []string{
+				"new 0 0 256 200 1048576", "put 0 " + k47 + " 01", "put 0 " + lib.Hex(c06Key(0xf0, []byte("z"))) + " " + c06Filler, "ckpt 0 1",
+				"open 100 0 128 200 1048576 0:1", "open 101 128 256 200 1048576 0:1",
+				"get 100 " + k47, "put 100 " + k47 + " 02", "put 100 " + lib.Hex(c06Key(0x0b, []byte("f"))) + " " + c06Filler,
+				"ckpt 100 2", "ckpt 101 2",
+				"open 200 0 256 1048576 1048576 100:2,101:2", "get 200 " + k47, "scan 200 " + lib.Hex(c06Key(0x0a, nil)), "scanown 200",
+				"open 201 0 256 1048576 1048576 101:2,100:2", "get 201 " + k47, "scan 201 " + lib.Hex(c06Key(0x0a, nil)),
+				"seq 200", "seq 201",
+			}})
 			// scale-in form of D6: the source with the highest sequence numbers sits in the base level, the other source
 			// has a level-0 table with small ones; the composite's sequence number must be above BOTH (the old
 			// instances number their writes independently), else a write to a restored key loses in scans
